@@ -1,0 +1,30 @@
+//go:build verif
+
+// Contracts for the deductive verifier in /verif (comment-only file; see /verif/DESIGN.md).
+package txnoffsetcommit
+
+//@ property C04
+
+// Wire layout per version, from the Kafka protocol definition of this API (field order, types and the versions each field
+// exists in); the encoders and decoders are compiled from the struct tags, so the tags are checked against it.
+//@ wire Request
+//@   layout v0..v2 TransactionalID string, GroupID string, ProducerID int64, ProducerEpoch int16, Topics []RequestTopic
+//@   layout v3 _ struct{} @-1, TransactionalID string, GroupID string, ProducerID int64, ProducerEpoch int16, GenerationID int32, MemberID string, GroupInstanceID string?, Topics []RequestTopic
+//@ wire RequestTopic
+//@   layout v0..v2 Name string, Partitions []RequestPartition
+//@   layout v3 _ struct{} @-1, Name string, Partitions []RequestPartition
+// CommittedMetadata is nullable in every version of the Kafka definition; the library declares it nullable from v3 only (an
+// empty Go string is sent as the empty string before v3: the same offset metadata for the broker).
+//@ wire RequestPartition
+//@   layout v0..v1 Partition int32, CommittedOffset int64, CommittedMetadata string
+//@   layout v2 Partition int32, CommittedOffset int64, CommittedLeaderEpoch int32, CommittedMetadata string
+//@   layout v3 _ struct{} @-1, Partition int32, CommittedOffset int64, CommittedLeaderEpoch int32, CommittedMetadata string?
+//@ wire Response
+//@   layout v0..v2 ThrottleTimeMs int32, Topics []ResponseTopic
+//@   layout v3 _ struct{} @-1, ThrottleTimeMs int32, Topics []ResponseTopic
+//@ wire ResponseTopic
+//@   layout v0..v2 Name string, Partitions []ResponsePartition
+//@   layout v3 _ struct{} @-1, Name string, Partitions []ResponsePartition
+//@ wire ResponsePartition
+//@   layout v0..v2 Partition int32, ErrorCode int16
+//@   layout v3 _ struct{} @-1, Partition int32, ErrorCode int16
